@@ -36,7 +36,7 @@ one was found and `no-failing-input-found` otherwise (§2.4).
 | C01 | generated models + `Fitter` + closed-form least squares (`Props/C01Noise`); 13 | recovery runs with recorded optimiser calls; fixed-contact-point fits vs the closed form at exact rationals | ≈ 10 s |
 | C02 | generated ℝ/Float renderings + hand spec; 31 | regeneration; Float rendering vs numpy (ulp) | ≈ 5 s |
 | C03 C06 C09 C10 | object model `Indent` (+`Rater`), incl. the E(δ)-scan cache (`Props/C03Scan`), the pipeline decision (`Props/C09Pipeline`) and keyword order (`Props/C10Order`); 9 + 5 + 14 + 7 | history engine (random + directed histories incl. `compute_emodulus_mindelta`, in-place edits, fresh-object oracle) | ≈ 30 s each |
-| C04 C05 C11 | `Residual`, `Fitter` (C05 also audits `c05_scan_sample_count` of the object model); 12 + 12 + 12 | exact-rational correspondence with recorded θ̂ / index sets; paired fits | 3–7 s |
+| C04 C05 C11 | `Residual`, `Fitter` (C05 also audits `c05_scan_sample_count` of the object model); 17 + 12 + 12 | exact-rational correspondence with recorded θ̂ / index sets; paired fits | 3–7 s |
 | C07 | `Preproc`; 21 | step-by-step exact-rational correspondence | ≈ 20 s |
 | C08 | `Poc`; 17 | exact-rational correspondence + recorded optimiser inputs | ≈ 60 s |
 | C12 | `Hash`; 16 | byte-exact pre-image correspondence | ≈ 11 s |
